@@ -47,6 +47,10 @@ def object_nodes(mm, j, t, path=()):
         if n in mm.enums:
             return []
         props = mm.props_of(t)
+        if not props and isinstance(j, dict) and hasattr(root_class(n), "__attrs_attrs__"):
+            # a *named* structure that declares no property (InitializedParams) is still a protocol
+            # object with a generated class: unknown properties on it must be ignored (seeded W7-C15-M2)
+            return [path]
         return _obj_nodes(mm, j, props, path)
     if k == "literal":
         return _obj_nodes(mm, j, t["value"].get("properties", []), path)
@@ -361,7 +365,7 @@ def run(ctx):
         "roots": a["roots"], "outcome_classes": a["outcomes"], "capped_roots": a["capped"], "exhaustive": not a["capped"],
         "samples": a["samples"],
     }
-    res.assumptions = ["names are declared nowhere in the metamodel; payload nodes of LSPAny/LSPObject/maps/property-less objects are data and excluded",
+    res.assumptions = ["names are declared nowhere in the metamodel; payload nodes of LSPAny/LSPObject/maps/property-less literals are data and excluded (property-less named structures with a generated class are included)",
                        "base values that already violate C01 are skipped"]
     return res
 
